@@ -241,7 +241,9 @@ def scen_ping(rng, tier):
                                     ev += [(end, None), (end + 8, "lost"), (end + 3600 * SEC, None)]
                                 else:
                                     # horizon reached with every ping answered: the peer goes away right after its last pong
-                                    end = last_answer + 8
+                                    # (+1, not +8: with rtt = 1 s - 8u the next ping is due exactly 8u after the pong, and a loss
+                                    # at that very instant would race with it)
+                                    end = last_answer + (8 if unanswered_no_timeout else 1)
                                     ev += [(end, "lost"), (end + 3600 * SEC, None)]
                                 ops, times = timeline(ev)
                                 responsive = (silent_after is None) and (T == 0 or rtt <= T - SEC)
